@@ -144,6 +144,7 @@ func runModelCheck(c *Ctx, spec modelSpec) *orch.Outcome {
 		"one-step oracle: the reference rules are re-based on the OBSERVED previous state at every block; OPR/SPR grading verdicts are taken from the pegnet grader library called directly on the same entries",
 		"compressed eras (mainnet order and equalities), averaging window 12 (thorough tier: 6, 8, 12, 16 and 20 over the profiles) unless stated",
 		"shapes that reproduce recorded legacy-era findings are kept out of the default workload (DESIGN.md appendix A)",
+		"in every second profile each 4th block fails once at its last statement (the sync-height update) and is applied again by the same process; the expectations do not change",
 	}, spec.Assume...)
 	var jobs []orch.Job
 	for i, p := range spec.Profiles(c) {
@@ -177,6 +178,7 @@ func runModelCheck(c *Ctx, spec modelSpec) *orch.Outcome {
 	o.Extra["blocks_monitored"] = orch.SumCounter(rs, "blocks_monitored")
 	o.Extra["balance_changes_confirmed"] = orch.SumCounter(rs, "balance_changes_confirmed")
 	o.Extra["runs"] = len(jobs)
+	o.Extra["blocks_applied_twice_after_a_late_failure"] = orch.SumCounter(rs, "blocks_applied_twice_after_a_late_failure")
 	if len(others) > 0 {
 		o.Extra["mismatches_attributed_to_other_properties_ignored_here"] = others
 	}
@@ -215,7 +217,11 @@ func seedsFor(c *Ctx, quick, thorough int) []int64 {
 func stdProfiles(c *Ctx, quick, thorough int, feats ...string) []modelParams {
 	var ps []modelParams
 	for i, s := range seedsFor(c, quick, thorough) {
-		ps = append(ps, modelParams{Seed: s, Profile: "mixed", Late: i%3 == 2, Features: feats, Window: thoroughWindow(c, i)})
+		fs := feats
+		if i%2 == 1 {
+			fs = append(append([]string{}, feats...), "retries")
+		}
+		ps = append(ps, modelParams{Seed: s, Profile: "mixed", Late: i%3 == 2, Features: fs, Window: thoroughWindow(c, i)})
 	}
 	return ps
 }
@@ -250,7 +256,11 @@ func sumCounters(rs []*orch.Result, keys ...string) map[string]interface{} {
 func featProfiles(c *Ctx, quick, thorough int, lateEvery int, feats ...string) []modelParams {
 	var ps []modelParams
 	for i, s := range seedsFor(c, quick, thorough) {
-		ps = append(ps, modelParams{Seed: s, Profile: "mixed", Late: lateEvery > 0 && i%lateEvery == lateEvery-1, Features: feats, Window: thoroughWindow(c, i)})
+		fs := feats
+		if i%2 == 1 {
+			fs = append(append([]string{}, feats...), "retries") // every 4th block fails at its last statement once and is applied again
+		}
+		ps = append(ps, modelParams{Seed: s, Profile: "mixed", Late: lateEvery > 0 && i%lateEvery == lateEvery-1, Features: fs, Window: thoroughWindow(c, i)})
 	}
 	return ps
 }
